@@ -167,6 +167,20 @@ def execLine2 (w : World) (line : String) : World × String :=
       | some _, some .unmodelled => (w.set a .unmodelled, "unmodelled")
       | _, _ => (w, "bad-op")
     | _, _, _, _ => (w, "bad-op")
+  | ["same", _, _] => (w, "ok")
+  | ["script", h, t] =>
+    match parseHandle h, parseTextTok t with
+    | some a, some text =>
+      match w.get a with
+      | some (.live g) =>
+        match Ss.deploy text g with
+        | (s, .ok, k) => (w.set a (.live s.g), s!"ok {k} ; " ++ showNats (keys s.g))
+        | (s, .err, k) => (w.set a (.live s.g), s!"err {k} ; " ++ showNats (keys s.g))
+        | (_, .panic, _) => (w.set a .dead, "panic")
+      | some .dead => (w, "dead")
+      | some .unmodelled => (w, "unmodelled")
+      | none => (w, "bad-op")
+    | _, _ => (w, "bad-op")
   | ["save", h] =>
     match (parseHandle h).bind w.get with
     | some (.live g) => (w, "ok " ++ hexOfBytes (Cd.save g))
